@@ -36,12 +36,13 @@ PROPS = {
             {'engine': 'verus', 'name': 'batcher', 'tier': 'quick', 'role': 'Batcher::{enqueue,flush,end}, NetworkMessage::{new_single,new_batch,sender}: view equation all = sent ++ pending'},
             {'engine': 'verus', 'name': 'framing', 'tier': 'quick', 'role': 'remote_send/remote_recv: frame = header ++ body; recv returns the sent (endpoint, message) and consumes exactly one frame'},
             {'engine': 'verus', 'name': 'start_next', 'tier': 'quick', 'exclude_obligations': ['start.progress_on_replica_end'], 'role': 'receiving side: batches are iterated completely and in order (NetworkMessage::into_iter, NetworkDataIterator::next, Start::next stream equation)'},
+            {'engine': 'verus', 'name': 'muxdemux', 'tier': 'quick', 'role': 'the forwarding loops of mux_thread / demux_thread: every queued (destination, message) written once in queue order; every decoded (destination, message) handed to the local channel of exactly that destination, in stream order; the loops stop only when the queue is closed / the stream has ended'},
         ],
         'explanation': 'Verus proof (unbounded buffer length / batch size, every batch mode, every timing) that the real Batcher hands the link '
                        'exactly the enqueued sequence: enqueue appends to the abstract view, flush/end send the whole pending tail as one batch '
                        'stamped with the producer coordinate, nothing is dropped, duplicated or reordered.',
         'assumptions': [
-            'the link itself (flume channel / TCP mux-demux) is a reliable FIFO: environment contract R-CHAN, not verified',
+            'flume channels and TCP are reliable FIFOs (R-CHAN, not verified); the forwarding loops of the mux / demux threads are under contract (unit muxdemux), their start-up, connection set-up and shutdown are not',
         ],
     },
     'C03': {
